@@ -94,7 +94,7 @@ func (p *Packet) Length() int {
 
 // Frames returns the number of data frames in the packet
 func (p *Packet) Frames() int {
-	if p.shape == nil {
+	if p.shape == nil || p.format == nil || p.format.wordlen <= 0 {
 		return 0
 	}
 	nchan := 1
@@ -194,7 +194,8 @@ func (p *Packet) ReadValue(sample int) int {
 	case []int64:
 		return int(d[sample])
 	default:
-		panic("Oh no! Type of d is not known in Packet.ReadValue()")
+		// payload is absent or not a vector of one integer type (e.g., a multi-type format)
+		return 0
 	}
 }
 
@@ -325,6 +326,9 @@ func (p *Packet) Bytes() []byte {
 // ChannelInfo returns the number of channels in this packet, and the first one
 func (p *Packet) ChannelInfo() (nchan, offset int) {
 	nchan = 1
+	if p.shape == nil {
+		return nchan, int(p.offset)
+	}
 	for _, s := range p.shape.Sizes {
 		if s > 0 {
 			nchan *= int(s)
